@@ -187,6 +187,67 @@ def guid_functional_fn(kind):
     return fn
 
 
+def guid_many_blocks_fn(kind):
+    """identifiers of objects with MANY blocks / long qualifier values (digest input of many kilobytes): equal content gives equal identifiers and a change of ONE
+    coordinate anywhere (first, middle, last block; start or end), one frame, the strand or one character of a long qualifier value changes the identifier"""
+
+    def fn(nb, which, what, big):
+        nb, which, what, big = concretize(nb, which, what, big)
+        with untraced():
+            base = 100000000 if big else 1000
+            starts = [base + 100 * i for i in range(nb)]
+            ends = [s_ + 50 for s_ in starts]
+            note = "x" * (9000 if big else 20)
+
+            def build(st, en, strand=PLUS, f1=CDSFrame.ZERO, note=note):
+                if kind == "feat":
+                    return FeatureInterval(st, en, strand, qualifiers={"note": [note]}, sequence_name="chr1")
+                if kind == "tx":
+                    return TranscriptInterval(st, en, strand, qualifiers={"note": [note]}, sequence_name="chr1")
+                fr = [CDSFrame.ZERO] * len(st)
+                fr[which % len(st)] = f1
+                return CDSInterval(st, en, strand, fr, qualifiers={"note": [note]}, sequence_name="chr1")
+
+            o, twin = build(starts, ends), build(list(starts), list(ends))
+            if o.guid != twin.guid or type(o).from_dict(o.to_dict()).guid != o.guid:
+                return False
+            i = [0, nb // 2, nb - 1][which]
+            if what == 0:
+                v = build(starts, ends[:i] + [ends[i] + 1] + ends[i + 1:])
+            elif what == 1:
+                v = build(starts[:i] + [starts[i] + 1] + starts[i + 1:], ends)
+            elif what == 2:
+                v = build(starts, ends, strand=MINUS)
+            elif what == 3:
+                v = build(starts, ends, note=note[:-1] + "y")
+            else:
+                if kind != "cds":
+                    return True
+                v = build(starts, ends, f1=CDSFrame.ONE)
+            return v.guid != o.guid
+
+    return fn
+
+
+def qualifier_value_types_fn():
+    """qualifier values of mixed types that Python considers equal (1, 1.0, True; 0, 0.0, False) are DIFFERENT values once imported as text: none is lost, and the
+    dictionary form and identifier do not depend on the order in which they were given"""
+    VALS = [1, 1.0, True, "1", 0, 0.0, False, "x"]
+
+    def fn(i, j, k, l):
+        i, j, k, l = concretize(i, j, k, l)
+        with untraced():
+            vals = [VALS[i], VALS[j], VALS[k], VALS[l]]
+            objs = []
+            for perm in (vals, vals[::-1], vals[1:] + vals[:1]):
+                objs.append(FeatureInterval([3], [9], PLUS, qualifiers={"score": list(perm), "n": ["a"]}, sequence_name="chr1"))
+            want = sorted({str(v) for v in vals})
+            return all(sorted(o.to_dict()["qualifiers"]["score"]) == want for o in objs) and len({o.guid for o in objs}) == 1 and \
+                all(sorted(o.qualifiers["score"]) == want for o in objs)
+
+    return fn
+
+
 # ------------------------------------------------------------------ C. pre-image injectivity (z3 strings over extracted templates)
 SENT = [100003, 100019, 100043, 100057]
 
@@ -601,6 +662,20 @@ def obligations(tier):
                        desc="pickle round trip of an AnnotationCollection (%s parent%s): equal dictionary form, guid, bounds, children, sequence" % (
                            "un-named chromosome" if pk == "chrom_noid" else pk, ", with a variant collection" if wv else ""),
                        bounds="1 gene + 1 feature collection%s, realised small coordinates" % (" + 1 variant collection" if wv else ""), examples=[dict(s0=3, l0=2, g1=1, l1=4, w=0)]))
+    for kind in ("feat", "tx", "cds"):
+        out.append(Obl("guid_many_blocks_%s" % kind, guid_many_blocks_fn(kind), dict(nb=int, which=int, what=int, big=int),
+                       lambda nb, which, what, big: (nb == 200 or nb == 400 or nb == 600) and 0 <= which and which <= 2 and 0 <= what and what <= 4 and 0 <= big and big <= 1,
+                       budget=900, cost=60,
+                       desc="%s with 200 / 400 / 600 blocks (9-digit coordinates and a 9000-character qualifier value in the big variant: digest input of many kilobytes): "
+                            "equal content => equal identifier (also through from_dict); one changed start or end in the first / middle / last block, the strand, one "
+                            "frame, or one character of the long qualifier value => different identifier (real MD5)" % kind,
+                       bounds="3 block counts x 3 positions x 5 kinds of change x small / big coordinates (closed by the solver)", examples=[dict(nb=400, which=1, what=0, big=1)]))
+    nv = 8
+    out.append(Obl("qualifier_values_of_mixed_types", qualifier_value_types_fn(), dict(i=int, j=int, k=int, l=int),
+                   lambda i, j, k, l: 0 <= i and i < j and j < k and k < l and l < nv, budget=600, cost=30,
+                   desc="qualifier value lists mixing 1, 1.0, True, '1', 0, 0.0, False, 'x' (values Python considers equal across types): every distinct TEXT survives the "
+                        "import, and dictionary form and identifier do not depend on the order given", bounds="every 4-subset of the 8 values x 3 orders (closed by the solver)",
+                   examples=[dict(i=0, j=1, k=2, l=7)]))
     for strand in (PLUS, MINUS):
         out.append(Obl("chunk_relative_dict_%s" % sname(strand), chunk_relative_dict_fn(strand), dict(s0=int, l0=int, g1=int, l1=int, f0=int, w=int),
                        lambda s0, l0, g1, l1, f0, w: 8 <= s0 and s0 <= 9 and 4 <= l0 and l0 <= 6 and 2 <= g1 and g1 <= 3 and 4 <= l1 and l1 <= 6 and 0 <= f0 and f0 <= 2
